@@ -962,6 +962,33 @@ fn after_popen(spec: &Spec, mut p: Popen) {
             println!("dropped_ms {}", t.elapsed().as_millis());
             return;
         }
+        a if a.starts_with("signals:") => {
+            // signalling calls on a live child (logged by the kill interposer), then clean up
+            for op in a[8..].split(',') {
+                let r = match op {
+                    "term" => p.terminate(),
+                    "kill" => p.kill(),
+                    "poll" => {
+                        println!("sigop poll {}", p.poll().map(show_status).unwrap_or("none".into()));
+                        continue;
+                    }
+                    "wait" => {
+                        println!("sigop wait {}", p.wait().map(show_status).unwrap_or("err".into()));
+                        continue;
+                    }
+                    s => {
+                        use subprocess::unix::PopenExt;
+                        p.send_signal(s[3..].parse().unwrap())
+                    }
+                };
+                println!("sigop {} {}", op, if r.is_ok() { "ok".to_string() } else { format!("err {:?}", r.err().and_then(|e| e.raw_os_error())) });
+            }
+            mark("cleanup");
+            if let Some(pid) = p.pid() {
+                unsafe { libc::syscall(libc::SYS_kill, pid as i32, libc::SIGKILL) };
+                p.wait().ok();
+            }
+        }
         "kill" => {
             p.kill().ok();
             match p.wait() {
@@ -1260,25 +1287,35 @@ fn run_pipeline(spec: &Spec, stub: &str) {
     let det = spec.get("stage_detached") == Some("1");
     let mut stages: Vec<Exec> = spec.all("stage").iter().map(|l| stage_exec(l, stub, det)).collect();
     let shape = spec.get("shape").unwrap_or("left").to_string();
-    let mut pl: Pipeline = if shape == "iter" {
-        Pipeline::from_exec_iter(stages)
-    } else if let Some(k) = shape.strip_prefix("cat:") {
-        // (first k commands) | (the rest), both built left-nested
-        let k: usize = k.parse().unwrap();
-        let rest: Vec<Exec> = stages.split_off(k);
-        let build = |v: Vec<Exec>| -> Pipeline {
-            let mut it = v.into_iter();
-            let a = it.next().unwrap();
-            let b = it.next().unwrap();
-            let mut p = a | b;
-            for e in it {
-                p = p | e;
-            }
-            p
-        };
-        build(stages) | build(rest)
-    } else {
-        let mut it = stages.into_iter();
+    // the pipeline-level settings, applicable to the finished pipeline or (shapes cate / pushe) to an operand of `|`
+    let set_in = |pl: Pipeline| -> Pipeline {
+        match spec.get("pstdin").unwrap_or("none") {
+            "none" => pl,
+            "pipe" => pl.stdin(Redirection::Pipe),
+            "null" => pl.stdin(subprocess::NullFile),
+            "file" => pl.stdin(File::open(format!("{}/pin.txt", wd)).unwrap()),
+            d if d.starts_with("data:") => pl.stdin(hexdec(&d[5..])),
+            _ => panic!("bad pstdin"),
+        }
+    };
+    let set_out = |pl: Pipeline| -> Pipeline {
+        match spec.get("pstdout").unwrap_or("none") {
+            "none" => pl,
+            "pipe" => pl.stdout(Redirection::Pipe),
+            "null" => pl.stdout(subprocess::NullFile),
+            "file" => pl.stdout(File::create(format!("{}/pout.txt", wd)).unwrap()),
+            _ => panic!("bad pstdout"),
+        }
+    };
+    let set_err = |pl: Pipeline| -> Pipeline {
+        if spec.get("stderr_to") == Some("file") {
+            pl.stderr_to(std::fs::OpenOptions::new().create(true).append(true).open(format!("{}/perr.txt", wd)).unwrap())
+        } else {
+            pl
+        }
+    };
+    let build = |v: Vec<Exec>| -> Pipeline {
+        let mut it = v.into_iter();
         let a = it.next().unwrap();
         let b = it.next().unwrap();
         let mut p = a | b;
@@ -1287,27 +1324,29 @@ fn run_pipeline(spec: &Spec, stub: &str) {
         }
         p
     };
-    match spec.get("pstdin").unwrap_or("none") {
-        "none" => {}
-        "pipe" => pl = pl.stdin(Redirection::Pipe),
-        "null" => pl = pl.stdin(subprocess::NullFile),
-        "file" => {
-            let p = format!("{}/pin.txt", wd);
-            pl = pl.stdin(File::open(&p).unwrap());
+    let pl: Pipeline = if shape == "iter" {
+        set_err(set_out(set_in(Pipeline::from_exec_iter(stages))))
+    } else if let Some(k) = shape.strip_prefix("cat:") {
+        // (first k commands) | (the rest), both built left-nested
+        let k: usize = k.parse().unwrap();
+        let rest: Vec<Exec> = stages.split_off(k);
+        set_err(set_out(set_in(build(stages) | build(rest))))
+    } else if let Some(k) = shape.strip_prefix("cate:") {
+        // the same, but configured BEFORE composing: input and stderr sink on the left operand, output on the right one
+        let k: usize = k.parse().unwrap();
+        let rest: Vec<Exec> = stages.split_off(k);
+        set_err(set_in(build(stages))) | set_out(build(rest))
+    } else if shape == "pushe" {
+        // (a | b) configured, then every further command pushed onto the configured pipeline
+        let rest: Vec<Exec> = stages.split_off(2);
+        let mut p = set_err(set_out(set_in(build(stages))));
+        for e in rest {
+            p = p | e;
         }
-        d if d.starts_with("data:") => pl = pl.stdin(hexdec(&d[5..])),
-        _ => panic!("bad pstdin"),
-    }
-    match spec.get("pstdout").unwrap_or("none") {
-        "none" => {}
-        "pipe" => pl = pl.stdout(Redirection::Pipe),
-        "null" => pl = pl.stdout(subprocess::NullFile),
-        "file" => pl = pl.stdout(File::create(format!("{}/pout.txt", wd)).unwrap()),
-        _ => panic!("bad pstdout"),
-    }
-    if spec.get("stderr_to") == Some("file") {
-        pl = pl.stderr_to(std::fs::OpenOptions::new().create(true).append(true).open(format!("{}/perr.txt", wd)).unwrap());
-    }
+        p
+    } else {
+        set_err(set_out(set_in(build(stages))))
+    };
     let term = spec.get("term").unwrap_or("popen").to_string();
     let after = spec.get("after").unwrap_or("drop").to_string();
     std::panic::set_hook(Box::new(|_| {}));
